@@ -5,7 +5,7 @@ use std::collections::VecDeque;
 use std::mem::MaybeUninit;
 use std::sync::Arc;
 
-use tevec::export::ndarray::{Array1, ArrayView1, s};
+use tevec::export::ndarray::{Array1, ArrayView1, ArrayViewMut1, s};
 use tevec::prelude::*;
 use vh::{Cell, Emitter, Rng, NULL_PATTERNS, null_mask, guarded, coq_f64, coq_list, coq_nat, coq_z, coq_opt, cells_f64};
 
@@ -56,6 +56,89 @@ macro_rules! observe {
         match tas(v) {
             Some(s) => { c.push(Cell::Int(1)); for x in s { c.push(cell(x)) } }
             None => c.push(Cell::Null),
+        }
+        c
+    }};
+}
+
+
+/// valid-get family of a Vec1View<f64> container (view.rs vget / uvget / to_opt_iter / iter_cast / opt_iter_cast):
+/// vget(i) for i in 0..=len, uvget(i) for i < len, then the four element-wise iterators
+macro_rules! observe_valid {
+    ($v:expr) => {{
+        let v = $v;
+        let len = GetLen::len(v);
+        let mut c = Vec::new();
+        for i in 0..=len { c.push(ocell(Vec1View::vget(v, i))) }
+        c.push(Cell::Sep);
+        for i in 0..len { c.push(ocell(unsafe { Vec1View::uvget(v, i) })) }
+        c.push(Cell::Sep);
+        for x in Vec1View::to_opt_iter(v) { c.push(ocell(x)) }
+        c.push(Cell::Sep);
+        for x in Vec1View::iter_cast::<f64>(v) { c.push(Cell::F(x)) }
+        c.push(Cell::Sep);
+        for x in Vec1View::iter_cast::<i32>(v) { c.push(Cell::Int(x as i128)) }
+        c.push(Cell::Sep);
+        for x in Vec1View::opt_iter_cast::<f64>(v) { c.push(ocell(x)) }
+        c.push(Cell::Sep);
+        for x in Vec1View::opt_iter_cast::<i32>(v) { c.push(match x { Some(k) => Cell::Int(k as i128), None => Cell::Null }) }
+        c
+    }};
+}
+
+
+/// helpers written with plain loops (the tevec prelude shadows Iterator::any / all)
+fn any_nan<'a>(it: impl Iterator<Item = &'a f64>) -> bool { for x in it { if x.is_nan() { return true } } false }
+fn same_bits<'a>(a: impl Iterator<Item = &'a f64>, b: impl Iterator<Item = &'a f64>) -> bool {
+    let (a, b): (Vec<u64>, Vec<u64>) = (a.map(|x| x.to_bits()).collect(), b.map(|x| x.to_bits()).collect());
+    a == b
+}
+
+fn marker(i: usize) -> f64 { (1000 + i) as f64 }
+
+/// mutable accessors of a Vec1Mut<f64> container (view_mut.rs get_mut, the backends' uget_mut / try_as_slice_mut):
+/// write a marker at index i through each accessor, re-observe the whole sequence with titer(), restore the element
+/// through the same accessor.  get_mut for i in 0..=len (None beyond the end), uget_mut for i < len, the mutable
+/// slice (Null when not offered, else its length and a write at every slice index).
+macro_rules! observe_mut {
+    ($v:expr) => {{
+        let v = $v;
+        let len = GetLen::len(&*v);
+        let mut c = Vec::new();
+        for i in 0..=len {
+            match Vec1Mut::get_mut(&mut *v, i) {
+                Some(p) => {
+                    let old = *p;
+                    *p = marker(i);
+                    for x in (&*v).titer() { c.push(Cell::F(x)) }
+                    *Vec1Mut::get_mut(&mut *v, i).unwrap() = old;
+                }
+                None => c.push(Cell::Err),
+            }
+            c.push(Cell::Sep);
+        }
+        c.push(Cell::Sep);
+        for i in 0..len {
+            let old;
+            { let p = unsafe { Vec1Mut::uget_mut(&mut *v, i) }; old = *p; *p = marker(i); }
+            for x in (&*v).titer() { c.push(Cell::F(x)) }
+            unsafe { *Vec1Mut::uget_mut(&mut *v, i) = old };
+            c.push(Cell::Sep);
+        }
+        c.push(Cell::Sep);
+        match Vec1Mut::try_as_slice_mut(&mut *v).map(|s| s.len()) {
+            None => c.push(Cell::Null),
+            Some(n) => {
+                c.push(Cell::Int(1));
+                c.push(Cell::Int(n as i128));
+                for k in 0..n {
+                    let old;
+                    { let s = Vec1Mut::try_as_slice_mut(&mut *v).unwrap(); old = s[k]; s[k] = marker(k); }
+                    for x in (&*v).titer() { c.push(Cell::F(x)) }
+                    Vec1Mut::try_as_slice_mut(&mut *v).unwrap()[k] = old;
+                    c.push(Cell::Sep);
+                }
+            }
         }
         c
     }};
@@ -188,6 +271,26 @@ fn main() {
                 || format!("(run_ring {} {})", coq_list(&f, |x| coq_f64(*x)), coq_list(&sd, |x| coq_f64(*x))),
                 || observe!(&d, fcell, |s: std::collections::vec_deque::Iter<'_, f64>| s.cloned().collect::<Vec<f64>>(),
                             |v: &VecDeque<f64>| v.try_as_slice().map(|s| s.to_vec())));
+            let nt0 = if len == 0 { " nt=0" } else { "" };
+            let hasnull = any_nan(d.iter());
+            em.case("exact", &format!("part=valid be=deque len={} wrapped={} nulls={}{}", len, wrapped, hasnull, nt0),
+                &format!("valid be=deque first={:?} second={:?}", f, sd),
+                || format!("(run_ring_valid {} {})", coq_list(&f, |x| coq_f64(*x)), coq_list(&sd, |x| coq_f64(*x))),
+                || observe_valid!(&d));
+            em.case("exact", &format!("part=valid acc=into_titer be=deque len={} wrapped={}{}", len, wrapped, nt0),
+                &format!("into_titer be=deque first={:?} second={:?}", f, sd),
+                || format!("(run_into_titer_ring {} {})", coq_list(&f, |x| coq_f64(*x)), coq_list(&sd, |x| coq_f64(*x))),
+                || { let mut c: Vec<Cell> = d.clone().into_titer().map(Cell::F).collect(); c.push(Cell::Sep);
+                     c.extend(d.clone().into_titer().rev().map(Cell::F)); c });
+            let mut d = d;
+            em.case("exact", &format!("part=mut be=deque len={} wrapped={}{}", len, wrapped, nt0),
+                &format!("mut be=deque first={:?} second={:?}", f, sd),
+                || format!("(run_ring_mut {} {})", coq_list(&f, |x| coq_f64(*x)), coq_list(&sd, |x| coq_f64(*x))),
+                || observe_mut!(&mut d));
+            {   // the writes were undone and the ring layout is untouched
+                let (f2, s2) = d.as_slices();
+                assert!(same_bits(f2.iter(), f.iter()) && same_bits(s2.iter(), sd.iter()));
+            }
             let ad = Arc::new(d);   // moved, so the ring layout (head offset, wrap) is preserved
             let (f, sd) = ad.as_slices();
             let (f, sd) = (f.to_vec(), sd.to_vec());
@@ -197,6 +300,10 @@ fn main() {
                 || format!("(run_ring {} {})", coq_list(&f, |x| coq_f64(*x)), coq_list(&sd, |x| coq_f64(*x))),
                 || observe!(&ad, fcell, |s: std::collections::vec_deque::Iter<'_, f64>| s.cloned().collect::<Vec<f64>>(),
                             |v: &Arc<VecDeque<f64>>| v.try_as_slice().map(|s| s.to_vec())));
+            em.case("exact", &format!("part=valid be=arcdeque len={} wrapped={}{}", len, wrapped, nt0),
+                &format!("valid be=arcdeque first={:?} second={:?}", f, sd),
+                || format!("(run_ring_valid {} {})", coq_list(&f, |x| coq_f64(*x)), coq_list(&sd, |x| coq_f64(*x))),
+                || observe_valid!(&ad));
             if rep > 2 { continue; }
             // Vec, slice, fixed array (len <= 4), Arc<Vec>
             let xs = series(&mut rng, len);
@@ -211,6 +318,20 @@ fn main() {
                 || format!("(run_vec {})", xs_coq),
                 || { let b = xs.clone().into_boxed_slice(); let v: &[f64] = &b;
                      observe!(v, fcell, |s: &[f64]| s.to_vec(), |v: &[f64]| v.try_as_slice().map(|s| s.to_vec())) });
+            let vnulls = any_nan(xs.iter());
+            em.case("exact", &format!("part=valid be=vec len={} nulls={}{}", len, vnulls, nt0), &format!("valid be=vec xs={:?}", xs),
+                || format!("(run_vec_valid {})", xs_coq), || observe_valid!(&xs));
+            em.case("exact", &format!("part=valid be=arcvec len={} nulls={}{}", len, vnulls, nt0), &format!("valid be=arcvec xs={:?}", xs),
+                || format!("(run_vec_valid {})", xs_coq), || { let a = Arc::new(xs.clone()); observe_valid!(&a) });
+            em.case("exact", &format!("part=valid be=slice len={} nulls={}{}", len, vnulls, nt0), &format!("valid be=slice xs={:?}", xs),
+                || format!("(run_vec_valid {})", xs_coq),
+                || { let b = xs.clone().into_boxed_slice(); let v: &[f64] = &b; observe_valid!(v) });
+            em.case("exact", &format!("part=valid acc=into_titer be=vec len={}{}", len, nt0), &format!("into_titer be=vec xs={:?}", xs),
+                || format!("(run_into_titer {})", xs_coq),
+                || { let mut c: Vec<Cell> = xs.clone().into_titer().map(Cell::F).collect(); c.push(Cell::Sep);
+                     c.extend(xs.clone().into_titer().rev().map(Cell::F)); c });
+            em.case("exact", &format!("part=mut be=vec len={}{}", len, nt0), &format!("mut be=vec xs={:?}", xs),
+                || format!("(run_vec_mut {})", xs_coq), || { let mut m = xs.clone(); observe_mut!(&mut m) });
             if len == 3 {
                 let arr: [f64; 3] = [xs[0], xs[1], xs[2]];
                 em.case("exact", "part=access be=array len=3", &format!("access be=array xs={:?}", xs),
@@ -222,6 +343,24 @@ fn main() {
             em.case("exact", &format!("part=access be=optview len={}{}", len, if len == 0 { " nt=0" } else { "" }), &format!("access be=optview xs={:?}", xs),
                 || format!("(run_noslice_opt {})", coq_list(&xo, |x| coq_opt(x, |v| coq_f64(*v)))),
                 || { let ov = xs.opt(); observe!(&ov, ocell, |s: Vec<Option<f64>>| s, |v: &OptIter<'_, Vec<f64>, f64>| v.try_as_slice().map(|s| s.to_vec())) });
+            em.case("exact", &format!("part=valid be=optview len={} nulls={}{}", len, vnulls, nt0), &format!("valid be=optview xs={:?}", xs),
+                || format!("(run_opt_valid {})", coq_list(&xo, |x| coq_opt(x, |v| coq_f64(*v)))),
+                || { let ov = xs.opt(); let v = &ov; let len = GetLen::len(v);
+                     // Option<f64> elements: vget / uvget / to_opt_iter give Option<f64>; Option<f64> -> i32 is not offered (i32 has no null)
+                     let mut c = Vec::new();
+                     for i in 0..=len { c.push(ocell(Vec1View::vget(v, i))) }
+                     c.push(Cell::Sep);
+                     for i in 0..len { c.push(ocell(unsafe { Vec1View::uvget(v, i) })) }
+                     c.push(Cell::Sep);
+                     for x in Vec1View::to_opt_iter(v) { c.push(ocell(x)) }
+                     c.push(Cell::Sep);
+                     for x in Vec1View::iter_cast::<f64>(v) { c.push(Cell::F(x)) }
+                     c.push(Cell::Sep);
+                     c.push(Cell::Sep);
+                     for x in Vec1View::opt_iter_cast::<f64>(v) { c.push(ocell(x)) }
+                     c.push(Cell::Sep);
+                     for x in Vec1View::opt_iter_cast::<i32>(v) { c.push(match x { Some(k) => Cell::Int(k as i128), None => Cell::Null }) }
+                     c });
             // ndarray: owned, and views with every step / start offset; the real layout is read back
             let base_len = len * 3 + 2;
             let base: Vec<f64> = (0..base_len).map(|i| i as f64 / 2.0 - 1.0).collect();
@@ -238,12 +377,35 @@ fn main() {
                         &format!("access be=nd_view base_len={} start={} step={} (off={} stride={} len={})", base_len, start, step, off, st, vlen),
                         || format!("(run_strided {} {} {} {})", coq_list(&base, |x| coq_f64(*x)), coq_nat(off.max(0) as usize), coq_z(st as i128), coq_nat(vlen)),
                         || observe!(&v, fcell, |s: ArrayView1<'_, f64>| s.to_vec(), |v: &ArrayView1<'_, f64>| v.try_as_slice().map(|s| s.to_vec())));
+                    // the base memory gets nulls at two places so that the valid-get family sees them through every stride
+                    let mut nbase = base.clone();
+                    if base_len > 2 { nbase[2] = f64::NAN; } if base_len > 5 { nbase[5] = -f64::NAN; }
+                    let na = Array1::from_vec(nbase.clone());
+                    let nv: ArrayView1<f64> = na.slice(s![start..;step]);
+                    em.case("exact", &format!("part=valid be=nd_view step={} len={} nulls={}{}", step, vlen.min(20), any_nan(nv.iter()), if vlen == 0 { " nt=0" } else { "" }),
+                        &format!("valid be=nd_view base={:?} start={} step={} (off={} stride={} len={})", nbase, start, step, off, st, vlen),
+                        || format!("(run_strided_valid {} {} {} {})", coq_list(&nbase, |x| coq_f64(*x)), coq_nat(off.max(0) as usize), coq_z(st as i128), coq_nat(vlen)),
+                        || observe_valid!(&nv));
+                    // mutable view with the same layout over a private copy of the base memory
+                    let mut ma = a.clone();
+                    em.case("exact", &format!("part=mut be=nd_viewmut step={} len={}{}", step, vlen.min(20), if vlen == 0 { " nt=0" } else { "" }),
+                        &format!("mut be=nd_viewmut base_len={} start={} step={} (off={} stride={} len={})", base_len, start, step, off, st, vlen),
+                        || format!("(run_strided_mut {} {} {} {})", coq_list(&base, |x| coq_f64(*x)), coq_nat(off.max(0) as usize), coq_z(st as i128), coq_nat(vlen)),
+                        || { let mut vm: ArrayViewMut1<f64> = ma.slice_mut(s![start..;step]);
+                             assert!(vm.len() == vlen && vm.strides()[0] == st);
+                             observe_mut!(&mut vm) });
+                    assert!(same_bits(ma.iter(), a.iter()));
                 }
             }
             let owned = Array1::from_vec(xs.clone());
             em.case("exact", &format!("part=access be=nd_owned len={}{}", len, if len == 0 { " nt=0" } else { "" }), &format!("access be=nd_owned xs={:?}", xs),
                 || format!("(run_strided {} 0%nat 1 {})", xs_coq, coq_nat(len)),
                 || observe!(&owned, fcell, |s: ArrayView1<'_, f64>| s.to_vec(), |v: &Array1<f64>| v.try_as_slice().map(|s| s.to_vec())));
+            em.case("exact", &format!("part=valid be=nd_owned len={} nulls={}{}", len, vnulls, nt0), &format!("valid be=nd_owned xs={:?}", xs),
+                || format!("(run_strided_valid {} 0%nat 1 {})", xs_coq, coq_nat(len)), || observe_valid!(&owned));
+            em.case("exact", &format!("part=mut be=nd_owned len={}{}", len, nt0), &format!("mut be=nd_owned xs={:?}", xs),
+                || format!("(run_strided_mut {} 0%nat 1 {})", xs_coq, coq_nat(len)),
+                || { let mut m = owned.clone(); observe_mut!(&mut m) });
         }
     }
     // ================= (b) the matrix =============================================================
